@@ -7,4 +7,9 @@ import (
 )
 
 // FuzzGen: coverage-guided search over the generators of this package (see pbt.FuzzGen).
-func FuzzGen(f *testing.F) { pbt.FuzzGen(f) }
+// large-rrset is left out: one of its cases (hundreds of records, a dozen Verify calls over 64 KiB
+// and more of signed data) costs 0.2 - 1 s natively, and in an instrumented build with 16 workers
+// on a loaded machine it exceeds the 10 s the Go fuzz worker gives one input ("fuzzing process hung
+// or terminated unexpectedly", round 10: two campaigns of two). Its class is a matter of size, which
+// the generator reaches by construction, not of a rarely taken branch.
+func FuzzGen(f *testing.F) { pbt.FuzzGen(f, "large-rrset") }
